@@ -93,6 +93,14 @@ func init() {
 		NotCovered: "the merge algorithm of performSeek, range translation for the disk backends, ordering/duplicates, search depth — all value-level",
 	})
 	register(&PropertySpec{
+		ID: "C01",
+		Rules: []RuleSpec{
+			{"cache-ro", "no write (field, element, delete/clear/copy, or through a parameter-mutating callee) through a native cache obtained with GetROCache, on any path (isCacheRW idiom handled by boolean correlation)", ruleCacheRO},
+			{"cache-copy", "Copy() of every native cache gives the new DAO layer its own copy of every map/slice/pointer field, except the tabled replace-only fields, which are never modified in place anywhere", ruleCacheCopy},
+		},
+		NotCovered: "equality of two replicas is never observed; arithmetic of rewards, epoch boundaries, what InitializeCache computes, flush timing, backend differences, third-party nondeterminism",
+	})
+	register(&PropertySpec{
 		ID: "C07",
 		Rules: []RuleSpec{
 			{"admit-dominators", "every admission check of verifyAndPoolTx (script, expiry, VUB window, policy, size, network fee, on-chain/conflict record, witnesses with the remaining fee, attributes) gates pool.Add on every CFG path", ruleAdmitDominators},
